@@ -33,8 +33,324 @@ THEOREMS = [
 ]
 RULE = ("cases: (ploidy, n_base) grids incl. n_base in {127,128,129,200,256,300} for the sweep (recorder and jitted forcing read set); "
         "(breaks, n) with forced draw sequences and jitted random draws for random_breaks; random read sets x thresholds for the "
-        "homozygosity screen; random fixing patterns for re-insertion. Non-trivial: n_base > 127 or ploidy*n_base >= 8 (sweep); "
+        "homozygosity screen; random fixing patterns for re-insertion (thresholds 0..1, inbreeding 0 / 0.1 / 0.5, 1..3 chains, read_counts=None, "
+        "no reads, loci of 130..300 SNVs); whole iterations of DenovoMCMC.fit with recorders on base_step / random_breaks / interval_step; "
+        "`mchap assemble --mcmc-fix-homozygous X`. Non-trivial: n_base > 127 or ploidy*n_base >= 8 (sweep); "
         "breaks >= 2 (intervals); a site both fixed and non-fixed present (re-insertion). Distinct by request line.")
+
+
+def iteration_part(chk, r, tier):
+    """Whole iterations of the real sampler observed through `DenovoMCMC.fit`: `_denovo_assembler` and the two sweep drivers run as
+    plain Python (`.py_func`) so that recorders on `mutation.base_step`, `structural.random_breaks` and `structural.interval_step`
+    see every elementary attempt (the moves themselves are the real jitted ones).  Per (step, temperature): the mutation sweep attempts
+    every (haplotype, non-fixed SNV) pair exactly once with that SNV's allele number; every interval set comes from `random_breaks`
+    called with n = the number of NON-fixed SNVs, partitions range(n), and every interval is attempted exactly once; the trace equals the
+    sampler's states with the fixed SNVs re-inserted."""
+    from mchap.assemble import mutation, structural, mcmc as amcmc
+    from mchap.assemble.mcmc import DenovoMCMC, _homozygosity_probabilities
+
+    n_it = {"warm": 1, "quick": 8, "thorough": 60}[tier]
+    o_asm, o_mc, o_sc = amcmc._denovo_assembler, mutation.compound_step, structural.compound_step
+    o_bs, o_is, o_rb = mutation.base_step, structural.interval_step, structural.random_breaks
+    for it in range(n_it):
+        big = tier == "thorough" and it % 10 == 9
+        ploidy = r.choice([2, 3, 4]); nb = r.randint(3, 9) if not big else r.randint(130, 150)
+        n_alleles = [r.choice([2, 2, 3, 4]) for _ in range(nb)]
+        hom_sites = [r.random() < 0.5 for _ in range(nb)]
+        base = [r.randrange(a) for a in n_alleles]
+        truth = [[base[j] if hom_sites[j] else r.randrange(n_alleles[j]) for j in range(nb)] for _ in range(ploidy)]
+        reads, counts = G.gen_reads(r, n_alleles, r.randint(5, 14), haps=truth, gap=0.1, style="encoded", max_count=4)
+        thr = r.choice([0.999, 0.9, 0.6]); F = r.choice([0, 0.1, 0.5])
+        temps = r.choice([(1.0,), (0.3, 1.0), (0.2, 0.5, 1.0)])
+        steps = 3 if not big else 2; n_chains = r.choice([1, 2])
+        ev = []
+
+        def asm(**kw):
+            ev.append(("asm", {"n_het": int(kw["genotype"].shape[1]), "n_alleles": [int(a) for a in kw["n_alleles"]],
+                               "temps": [float(t) for t in kw["temperatures"]], "steps": int(kw["steps"])}))
+            # (plain numpy evaluates log(int8 array) in float16; the jitted code uses float64: hand the interpreter an int64 copy)
+            kw = {**kw, "n_alleles": np.asarray(kw["n_alleles"], dtype=np.int64)}
+            out = o_asm.py_func(**kw)
+            ev.append(("asm-end", np.array(out[0]).copy()))
+            return out
+
+        def mc(genotype, reads, llk, n_alleles, log_unique_haplotypes, inbreeding=0, temp=1, read_counts=None, cache=None):
+            ev.append(("mut", float(temp), tuple(genotype.shape)))
+            return o_mc.py_func(genotype, reads, llk, n_alleles, log_unique_haplotypes, inbreeding=inbreeding, temp=temp, read_counts=read_counts,
+                                cache=cache)
+
+        def bs(genotype, reads, llk, h, j, n_alleles, log_unique_haplotypes, inbreeding=0, temp=1, read_counts=None, cache=None):
+            ev.append(("base", int(h), int(j), int(n_alleles)))
+            return o_bs(genotype, reads, llk, h, j, n_alleles, log_unique_haplotypes, inbreeding, temp, read_counts, cache)
+
+        def rb(breaks, n):
+            iv = o_rb(breaks, n)
+            ev.append(("rb", int(breaks), int(n), np.array(iv).tolist()))
+            return iv
+
+        def sc(genotype, reads, llk, intervals, log_unique_haplotypes, inbreeding=0, step_type=0, randomize=True, temp=1, read_counts=None,
+               cache=None):
+            ev.append(("str", int(step_type), float(temp), np.array(intervals).tolist()))
+            return o_sc.py_func(genotype, reads, llk, intervals, log_unique_haplotypes, inbreeding=inbreeding, step_type=step_type,
+                                randomize=randomize, temp=temp, read_counts=read_counts, cache=cache)
+
+        def ist(genotype, reads, llk, log_unique_haplotypes, inbreeding=0, interval=None, step_type=0, temp=1, read_counts=None, cache=None):
+            ev.append(("int", [int(interval[0]), int(interval[1])], int(step_type)))
+            return o_is(genotype, reads, llk, log_unique_haplotypes, inbreeding, interval, step_type, temp, read_counts, cache)
+
+        amcmc._denovo_assembler, mutation.compound_step, structural.compound_step = asm, mc, sc
+        mutation.base_step, structural.interval_step, structural.random_breaks = bs, ist, rb
+        try:
+            tr = DenovoMCMC(ploidy=ploidy, n_alleles=n_alleles, steps=steps, chains=n_chains, fix_homozygous=thr, temperatures=temps,
+                            random_seed=r.randrange(1, 2 ** 31), inbreeding=F, llk_cache_threshold=r.choice([-1, 0, 100])).fit(reads, read_counts=counts)
+        finally:
+            amcmc._denovo_assembler, mutation.compound_step, structural.compound_step = o_asm, o_mc, o_sc
+            mutation.base_step, structural.interval_step, structural.random_breaks = o_bs, o_is, o_rb
+        hp = _homozygosity_probabilities(reads, np.array(n_alleles, dtype=np.int8), ploidy, inbreeding=F, read_counts=counts)
+        real = np.array([[al < n_alleles[j] for al in range(hp.shape[1])] for j in range(nb)])
+        if (np.abs(hp[real] - thr) < 1e-9).any():
+            chk.count("iteration:skipped-threshold-margin")
+            continue
+        fixed = [None] * nb
+        for j in range(nb):
+            for al in range(n_alleles[j]):
+                if hp[j, al] >= thr:
+                    fixed[j] = al
+        het = [j for j in range(nb) if fixed[j] is None]
+        n_het = len(het)
+        chk.count("iteration:fit"); chk.count(f"iteration:temperatures={len(temps)}")
+        chk.count("iteration:some-fixed-some-not" if 0 < n_het < nb else "iteration:none-fixed" if n_het == nb else "iteration:all-fixed")
+        chk.case(("iteration", it, ploidy, tuple(n_alleles) if nb < 20 else nb, thr, F, temps, n_chains), 0 < n_het < nb)
+        case = {"ploidy": ploidy, "n_alleles": n_alleles if nb < 20 else f"{nb} sites", "threshold": thr, "inbreeding": F, "temperatures": list(temps),
+                "steps": steps, "chains": n_chains, "fixed": fixed if nb < 20 else f"{nb - n_het} of {nb}"}
+        # split the event log into assembler runs (one per chain)
+        runs, cur = [], None
+        for e in ev:
+            if e[0] == "asm":
+                cur = {"info": e[1], "events": [], "trace": None}
+                runs.append(cur)
+            elif e[0] == "asm-end":
+                cur["trace"] = e[1]
+            elif cur is not None:
+                cur["events"].append(e)
+        if n_het == 0:
+            if runs:
+                chk.violation("the sampler is run although every SNV reaches the fixing threshold", case, "C15/fix/iff")
+            continue
+        if len(runs) != n_chains:
+            chk.violation("the assembler is not run once per chain", {**case, "runs": len(runs)}, "C15/iteration/chains")
+            continue
+        bad = None
+        for c_, run_ in enumerate(runs):
+            info, events = run_["info"], run_["events"]
+            if info["n_het"] != n_het or info["n_alleles"] != [n_alleles[j] for j in het]:
+                bad = ("C15/fix/iff", "the sampler is not given exactly the SNVs whose homozygosity probability stays below the threshold (with their "
+                       "allele numbers)", {"given_sites": info["n_het"], "given_alleles": info["n_alleles"][:12], "expected_sites": n_het})
+                break
+            want_pairs = [(h, j) for h in range(ploidy) for j in range(n_het)]
+            sweeps = []            # one entry per mutation sweep: (temp, [(h, j, na)...], [structural events...])
+            for e in events:
+                if e[0] == "mut":
+                    sweeps.append({"temp": e[1], "base": [], "rest": []})
+                elif not sweeps:
+                    bad = ("C15/iteration/order", "an elementary move is attempted before the first mutation sweep of the iteration", {"event": str(e)[:200]})
+                    break
+                elif e[0] == "base":
+                    if sweeps[-1]["rest"]:
+                        bad = ("C15/iteration/order", "a mutation attempt happens outside the mutation sweep", {"event": str(e)[:200]})
+                        break
+                    sweeps[-1]["base"].append(e[1:])
+                else:
+                    sweeps[-1]["rest"].append(e)
+            if bad:
+                break
+            want_temps = [float(t) for _ in range(steps) for t in sorted(temps)]
+            if [sw["temp"] for sw in sweeps] != want_temps:
+                bad = ("C15/iteration/sweeps", "there is not exactly one mutation sweep per (step, temperature), hottest chain first",
+                       {"observed_temperatures": [sw["temp"] for sw in sweeps][:12], "expected": want_temps[:12]})
+                break
+            for k, sw in enumerate(sweeps):
+                pairs = sorted((h, j) for h, j, _ in sw["base"])
+                if pairs != want_pairs:
+                    from collections import Counter
+                    cnt = Counter(pairs)
+                    bad = ("C15/compound_step/pairs", "an iteration does not attempt a mutation at every (haplotype, non-fixed SNV) pair exactly once",
+                           {"sweep": k, "temperature": sw["temp"], "n_attempts": len(pairs), "expected_attempts": len(want_pairs),
+                            "never_visited": [p_ for p_ in want_pairs if cnt.get(p_, 0) == 0][:5],
+                            "visited_more_than_once": [p_ for p_ in want_pairs if cnt.get(p_, 0) > 1][:5]})
+                    break
+                wrong = [(h, j, na) for h, j, na in sw["base"] if na != n_alleles[het[j]]]
+                if wrong:
+                    bad = ("C15/compound_step/site-alleles", "a mutation attempt is handed an allele number that is not that of its SNV",
+                           {"sweep": k, "attempt": list(wrong[0]), "alleles_of_that_site": n_alleles[het[wrong[0][1]]]})
+                    break
+                # structural part of this (step, temperature)
+                pending_rb, cur_str, todo = None, None, []
+                n_full = 0
+                for e in sw["rest"] + [("end",)]:
+                    if e[0] in ("rb", "str", "end") and cur_str is not None:
+                        if todo:
+                            bad = ("C15/iteration/intervals", "an interval of the set handed to a structural sweep is never attempted",
+                                   {"sweep": k, "intervals": cur_str[3], "not_attempted": todo[:5]})
+                            break
+                        cur_str = None
+                    if e[0] == "rb":
+                        _, breaks, n_, iv = e
+                        ok = (n_ == n_het and 0 <= breaks < n_ and len(iv) == breaks + 1 and iv[0][0] == 0 and iv[-1][1] == n_het
+                              and all(a < b for a, b in iv) and all(iv[i][1] == iv[i + 1][0] for i in range(len(iv) - 1)))
+                        if not ok:
+                            bad = ("C15/random_breaks/partition", "random_breaks is not called with the number of non-fixed SNVs, or its intervals do not "
+                                   "partition that range into breaks+1 contiguous non-empty intervals",
+                                   {"sweep": k, "breaks": breaks, "n": n_, "non_fixed_snvs": n_het, "intervals": iv[:12]})
+                            break
+                        pending_rb = iv
+                    elif e[0] == "str":
+                        iv = e[3]
+                        full = iv == [[0, n_het]]
+                        if pending_rb is not None:
+                            if iv != pending_rb:
+                                bad = ("C15/iteration/intervals", "the structural sweep does not use the interval set that was just drawn",
+                                       {"sweep": k, "drawn": pending_rb[:12], "used": iv[:12]})
+                                break
+                            pending_rb = None
+                        elif not (full and e[1] == 1):
+                            bad = ("C15/iteration/intervals", "a structural sweep uses an interval set that did not come from random_breaks "
+                                   "(and is not the full-length dosage move)", {"sweep": k, "used": iv[:12], "step_type": e[1]})
+                            break
+                        if full and e[1] == 1:
+                            n_full += 1
+                        if e[2] != sw["temp"]:
+                            bad = ("C15/iteration/sweeps", "a structural sweep runs at another temperature than the mutation sweep of its chain",
+                                   {"sweep": k, "temperature": e[2], "chain_temperature": sw["temp"]})
+                            break
+                        cur_str, todo = e, [list(x) for x in iv]
+                    elif e[0] == "int":
+                        if cur_str is None or e[1] not in todo or e[2] != cur_str[1]:
+                            bad = ("C15/iteration/intervals", "an interval move is attempted on an interval that is not (or no longer) in the current set, "
+                                   "or with another move type", {"sweep": k, "interval": e[1], "step_type": e[2]})
+                            break
+                        todo.remove(e[1])
+                if bad:
+                    break
+                if n_full < 1:
+                    bad = ("C15/iteration/sweeps", "no full-length dosage sweep in a (step, temperature) although its probability is 1",
+                           {"sweep": k, "temperature": sw["temp"]})
+                    break
+            if bad:
+                break
+            chk.count("iteration:mutation-sweeps", len(sweeps)); chk.count("iteration:random_breaks-calls", sum(1 for e in events if e[0] == "rb"))
+            # the trace of this chain: the sampler's cold states at the non-fixed columns, the fixed allele elsewhere
+            cold = run_["trace"][0]                      # (steps, ploidy, n_het)
+            for s_ in range(steps):
+                exp_rows = []
+                for h in range(ploidy):
+                    row = [fixed[j] if fixed[j] is not None else int(cold[s_, h, het.index(j)]) for j in range(nb)]
+                    exp_rows.append(tuple(row))
+                got = sorted(tuple(int(x) for x in row) for row in tr.genotypes[c_, s_])
+                if got != sorted(exp_rows):
+                    bad = ("C15/fix/reinsert", "fixed SNVs do not reappear in the trace in the correct column with the correct allele "
+                           "(trace != sampler states with the fixed SNVs re-inserted)",
+                           {"chain": c_, "step": s_, "first_wrong_column": next((j for j in range(nb) if sorted(x[j] for x in got) != sorted(x[j] for x in exp_rows)), None)})
+                    break
+            if bad:
+                break
+        if bad:
+            chk.violation(bad[1], {**case, **bad[2]}, bad[0])
+
+
+def cli_part(chk, r, tier):
+    """`mchap assemble --mcmc-fix-homozygous X` (and the option omitted): what DenovoMCMC receives, how many SNVs the sampler is
+    given, and the columns of every trace of the program, against the single-SNV homozygosity posterior at the threshold of the
+    command line"""
+    import os
+    import shutil
+    import tempfile
+    from . import synth as S
+    import mchap.application.assemble as A
+    from mchap.assemble import mcmc as amcmc
+    from mchap.assemble.mcmc import _homozygosity_probabilities
+
+    work = tempfile.mkdtemp(prefix="verif-c15-")
+    orig_cls, orig_asm = A.DenovoMCMC, amcmc._denovo_assembler
+    try:
+        n_ds = {"warm": 1, "quick": 2, "thorough": 8}[tier]
+        for d in range(n_ds):
+            ds = S.make_dataset(r, os.path.join(work, f"ds{d}"), n_samples=r.choice([2, 3]), n_loci=3, ploidies=r.choice([(2, 4), (4, 2, 2)]),
+                                max_snvs=4, depth=(3, 9) if d % 2 else (10, 25), features={"nodepth"} if d % 2 else frozenset())
+            options = [None, r.choice(["0.6", "0.8"])] if d % 2 == 0 else [r.choice(["1.0", "0.5"]), r.choice(["0.7", "0.9"])]
+            for opt in options:
+                fits, sampled = [], []
+
+                class Rec(orig_cls):
+                    def fit(self, reads, read_counts=None, initial=None, _fits=fits, _sampled=sampled):
+                        k = len(_sampled)
+                        tr = super().fit(reads, read_counts=read_counts, initial=initial)
+                        _fits.append((self, reads, read_counts, tr, list(_sampled[k:])))
+                        return tr
+
+                def asm(_sampled=sampled, **kw):
+                    _sampled.append(int(kw["genotype"].shape[1]))
+                    return orig_asm(**kw)
+                A.DenovoMCMC = Rec
+                amcmc._denovo_assembler = asm
+                try:
+                    extra = [] if opt is None else ["--mcmc-fix-homozygous", opt]
+                    out, code, err = S.run_program(ds.assemble_argv("--mcmc-steps", "60", "--mcmc-burn", "20", "--mcmc-chains", "2",
+                                                                    "--mcmc-seed", str(r.randrange(1, 10 ** 6)), *extra))
+                finally:
+                    A.DenovoMCMC = orig_cls
+                    amcmc._denovo_assembler = orig_asm
+                T = 0.999 if opt is None else float(opt)            # the documented default
+                chk.count("cli:assemble-runs"); chk.count("cli:--mcmc-fix-homozygous=" + ("default" if opt is None else opt))
+                rcase = {"dataset": d, "option": opt}
+                if code != 0:
+                    chk.violation("mchap assemble aborted on a synthetic data set", {**rcase, "error": err[:500]}, "C15/cli/abort")
+                    continue
+                chk.case(("cli", d, opt, len(fits)), len(fits) > 0)
+                n_between = 0
+                for (m, reads, counts, tr, n_sampled) in fits:
+                    n_alleles = [int(a) for a in m.n_alleles]
+                    nb = len(n_alleles)
+                    case = {**rcase, "ploidy": int(m.ploidy), "n_alleles": n_alleles, "inbreeding": float(m.inbreeding)}
+                    if float(m.fix_homozygous) != T:
+                        chk.violation("--mcmc-fix-homozygous (default 0.999) is not the threshold DenovoMCMC receives",
+                                      {**case, "received": float(m.fix_homozygous), "command_line": T}, "C15/cli/fix-homozygous-forwarded")
+                    if nb == 0:
+                        continue
+                    rd = reads if reads.shape[0] > 0 else np.full((1, nb, reads.shape[2]), np.nan)
+                    ct = counts if reads.shape[0] > 0 else None
+                    if reads.shape[0] == 0:
+                        chk.count("cli:fit-without-reads")
+                    hp = _homozygosity_probabilities(rd, np.array(n_alleles, dtype=np.int8), int(m.ploidy), inbreeding=m.inbreeding, read_counts=ct)
+                    real = np.array([[al < n_alleles[j] for al in range(hp.shape[1])] for j in range(nb)])
+                    if (np.abs(hp[real] - T) < 1e-9).any():
+                        chk.count("cli:skipped-threshold-margin")
+                        continue
+                    fixed = [None] * nb
+                    for j in range(nb):
+                        for al in range(n_alleles[j]):
+                            if hp[j, al] >= T:
+                                fixed[j] = al
+                    n_between += sum(1 for j in range(nb) if 0.5 <= hp[j, :n_alleles[j]].max() < 0.999)
+                    n_het = sum(1 for f in fixed if f is None)
+                    chk.count("cli:fit"); chk.count("cli:fit-some-fixed-some-not" if 0 < n_het < nb else "cli:fit-all-fixed" if n_het == 0 else "cli:fit-none-fixed")
+                    case = {**case, "threshold": T, "hom_probs": hp.tolist(), "expected_fixed": fixed}
+                    want_sampled = [n_het] * int(m.chains) if n_het > 0 else []
+                    if n_sampled != want_sampled:
+                        chk.violation("the number of SNVs the sampler is given is not the number of SNVs whose homozygosity probability stays below "
+                                      "--mcmc-fix-homozygous", {**case, "sampled_sites_per_chain": n_sampled, "expected": want_sampled}, "C15/cli/fix-iff")
+                        continue
+                    g = tr.genotypes            # (chains, steps, ploidy, nb)
+                    for j in range(nb):
+                        if fixed[j] is not None and not (g[..., j] == fixed[j]).all():
+                            chk.violation("a SNV whose homozygosity probability reaches --mcmc-fix-homozygous is not constant at that allele in the trace",
+                                          {**case, "site": j, "alleles_in_trace": sorted(set(int(x) for x in g[..., j].ravel()))}, "C15/cli/fix-reinsert")
+                            break
+                chk.count("cli:sites-with-hom-prob-in-[0.5,0.999)", n_between)
+    finally:
+        A.DenovoMCMC = orig_cls
+        amcmc._denovo_assembler = orig_asm
+        shutil.rmtree(work, ignore_errors=True)
 
 
 def run(tier, replay=None):
@@ -59,19 +375,28 @@ def run(tier, replay=None):
     ans = drv.ask([f"sweep.table {p} {n}" for p, n in shapes])
     visited = []
 
+    seen_alleles = []
+
     def recorder(genotype, reads, llk, h, j, n_alleles, log_unique_haplotypes, inbreeding=0, temp=1, read_counts=None, cache=None):
         visited.append((int(h), int(j)))
+        seen_alleles.append((int(j), int(n_alleles)))
         return llk, cache
 
     orig = mutation.base_step
     mutation.base_step = recorder
     try:
         for (ploidy, nb), a in zip(shapes, ans):
-            visited.clear()
+            visited.clear(); seen_alleles.clear()
             g = np.zeros((ploidy, nb), dtype=np.int8)
-            reads = np.full((1, nb, 2), np.nan)
+            reads = np.full((1, nb, 4), np.nan)
             np.random.seed(r.randrange(2 ** 31))
-            mutation.compound_step.py_func(g, reads, 0.0, np.full(nb, 2, dtype=np.int8), math.log(2) * nb)
+            site_alleles = np.array([r.choice([2, 2, 3, 4]) for _ in range(nb)], dtype=np.int8)    # bi-, tri- and tetra-allelic sites
+            mutation.compound_step.py_func(g, reads, 0.0, site_alleles, float(np.log(site_alleles.astype(float)).sum()))
+            wrong_na = [(j, na) for j, na in seen_alleles if not (0 <= j < nb) or na != int(site_alleles[j])]
+            if wrong_na:
+                chk.violation("the sweep hands a mutation attempt an allele number that is not that of its own SNV",
+                              {"ploidy": ploidy, "n_base": nb, "site": wrong_na[0][0], "passed": wrong_na[0][1],
+                               "site_alleles_first": site_alleles[:12].tolist()}, "C15/compound_step/site-alleles")
             model = sorted(tuple(int(x) for x in t.split(":")) for t in a.split())
             impl = sorted(visited)
             chk.count("sweep:recorder")
@@ -215,8 +540,11 @@ def run(tier, replay=None):
     # ------------------------------------------------------------------ DenovoMCMC: fixing + re-insertion with a marker trace
     n_f = {"warm": 2, "quick": 40, "thorough": 400}[tier]
     orig_asm = amcmc._denovo_assembler
+    n_long = {"warm": 0, "quick": 3, "thorough": 60}[tier]
     for it in range(n_f):
-        ploidy = r.choice([2, 4]); nb = r.randint(2, 7)
+        long_locus = it < n_long           # > 127 SNVs with half the sites homozygous
+        ploidy = r.choice([2, 4]) if not long_locus else r.choice([2, 3, 4])
+        nb = r.randint(2, 7) if not long_locus else (r.randint(130, 160) if tier != "thorough" else r.randint(130, 300))
         n_alleles = [r.choice([2, 3]) for _ in range(nb)]
         # haplotypes: some sites homozygous (strong reads) and some heterozygous
         hom_sites = [r.random() < 0.5 for _ in range(nb)]
@@ -224,8 +552,20 @@ def run(tier, replay=None):
         base = [r.randrange(a) for a in n_alleles]
         for h in range(ploidy):
             truth.append([base[j] if hom_sites[j] else r.randrange(n_alleles[j]) for j in range(nb)])
-        reads, counts = G.gen_reads(r, n_alleles, r.randint(4, 14), haps=truth, gap=0.1, style="encoded", max_count=4)
-        thr = r.choice([0.999, 0.9, 0.6])
+        mode = r.random()
+        n_rd = 0 if mode < 0.07 else r.randint(4, 14)          # a sample without reads: the screen sees the prior only
+        reads, counts = G.gen_reads(r, n_alleles, n_rd, haps=truth, gap=0.1, style="encoded", max_count=4)
+        if n_rd == 0:
+            chk.count("fit:zero-reads")
+        if 0.07 <= mode < 0.2 or (n_rd == 0 and r.random() < 0.5):
+            counts = None                                        # read_counts=None: every row observed once
+            chk.count("fit:read_counts=None")
+        thr = r.choice([0.999, 0.9, 0.6, 0.5, 0.3, 0.0, 1.0])
+        F = r.choice([0, 0.1, 0.5])
+        n_chains = r.choice([1, 1, 2, 3])
+        chk.count(f"fit:threshold={thr}"); chk.count(f"fit:inbreeding={F}"); chk.count(f"fit:chains={n_chains}")
+        if long_locus:
+            chk.count("fit:n_base>127")
         steps = 5
         captured = {}
 
@@ -243,12 +583,20 @@ def run(tier, replay=None):
 
         amcmc._denovo_assembler = fake_assembler
         try:
-            model = DenovoMCMC(ploidy=ploidy, n_alleles=n_alleles, steps=steps, chains=1, fix_homozygous=thr, random_seed=3)
-            tr = model.fit(reads, read_counts=counts)
+            model = DenovoMCMC(ploidy=ploidy, n_alleles=n_alleles, steps=steps, chains=n_chains, fix_homozygous=thr, random_seed=3, inbreeding=F)
+            try:
+                tr = model.fit(reads, read_counts=counts)
+            except Exception as e:   # noqa: BLE001
+                chk.violation(f"DenovoMCMC.fit raised {type(e).__name__} on a valid read set",
+                              {"ploidy": ploidy, "n_alleles": n_alleles if nb <= 12 else f"{nb} sites", "threshold": thr, "inbreeding": F,
+                               "n_reads": n_rd, "read_counts": None if counts is None else counts.tolist(), "error": repr(e)[:300]}, "C15/fix/raises")
+                continue
         finally:
             amcmc._denovo_assembler = orig_asm
-        gt = tr.genotypes[0]  # (steps, ploidy, nb)  -- note GenotypeMultiTrace sorts haplotypes within each step
-        hp = _homozygosity_probabilities(reads, np.array(n_alleles, dtype=np.int8), ploidy, inbreeding=0, read_counts=counts)
+        # the screen on the reads the sampler sees (a sample without reads is given one all-gap read by fit)
+        reads_seen = reads if n_rd > 0 else np.full((1, nb, reads.shape[2]), np.nan)
+        counts_seen = counts if (n_rd > 0 or counts is None) else np.array([1], dtype=np.int64)
+        hp = _homozygosity_probabilities(reads_seen, np.array(n_alleles, dtype=np.int8), ploidy, inbreeding=F, read_counts=counts_seen)
         margin = np.min(np.abs(hp[hp > 0] - thr)) if (hp > 0).any() else 1.0
         if margin < 1e-9:
             chk.count("skipped:threshold-margin")
@@ -261,14 +609,24 @@ def run(tier, replay=None):
         het_cols = [j for j in range(nb) if fixed[j] is None]
         chk.count("fit:reinsert")
         chk.case(("reinsert", it, tuple(fixed)), any(f is not None for f in fixed) and len(het_cols) > 0)
-        case = {"ploidy": ploidy, "n_alleles": n_alleles, "threshold": thr, "fixed": fixed, "hom_probs": hp.tolist()}
+        case = {"ploidy": ploidy, "n_alleles": n_alleles if nb <= 12 else f"{nb} sites", "threshold": thr, "inbreeding": F, "chains": n_chains,
+                "fixed": fixed if nb <= 12 else f"{sum(f is not None for f in fixed)} of {nb}", "hom_probs": hp.tolist() if nb <= 12 else "omitted",
+                "n_reads": n_rd, "read_counts": None if counts is None else counts.tolist()}
         if het_cols and captured.get("n_het") != len(het_cols):
             chk.violation("the set of SNVs held fixed is not {sites whose homozygosity probability reaches the threshold}",
                           {**case, "sampled_sites": captured.get("n_het"), "expected": len(het_cols)}, "C15/fix/iff")
             continue
-        # expected trace: marker values at heterozygous columns, fixed allele elsewhere (rows compared as multisets per step)
+        if het_cols and captured.get("n_alleles") != [n_alleles[j] for j in het_cols]:
+            chk.violation("the allele numbers handed to the sampler are not those of the SNVs that were not fixed",
+                          {**case, "passed": captured.get("n_alleles"), "expected": [n_alleles[j] for j in het_cols]}, "C15/fix/site-alleles")
+            continue
+        if tr.genotypes.shape[0] != n_chains:
+            chk.violation("the trace does not hold one chain per requested chain", {**case, "chains_in_trace": int(tr.genotypes.shape[0])}, "C15/fix/chains")
+            continue
+        # expected trace: marker values at heterozygous columns, fixed allele elsewhere (rows compared as multisets per step), in every chain
         ok = True
-        for s in range(steps):
+        for c_, s in [(c_, s) for c_ in range(n_chains) for s in range(steps)]:
+            gt = tr.genotypes[c_]  # (steps, ploidy, nb)  -- note GenotypeMultiTrace sorts haplotypes within each step
             exp_rows = []
             for h in range(ploidy):
                 row = []
@@ -282,10 +640,20 @@ def run(tier, replay=None):
             got = sorted(tuple(int(x) for x in row) for row in gt[s])
             if got != sorted(exp_rows):
                 ok = False
-                chk.violation("fixed SNVs do not reappear in the trace in the correct column with the correct allele",
-                              {**case, "step": s, "trace": [list(x) for x in got], "expected": [list(x) for x in sorted(exp_rows)]},
-                              "C15/fix/reinsert")
+                phantom = [(j, int(row[j])) for row in got for j in range(nb) if int(row[j]) >= n_alleles[j]]
+                if phantom and thr <= 0:
+                    chk.violation("with a threshold <= 0 a SNV is fixed to an allele number the SNV does not have (the zero-probability padding "
+                                  "columns of the homozygosity table also reach the threshold)",
+                                  {**case, "chain": c_, "step": s, "site": phantom[0][0], "allele_in_trace": phantom[0][1],
+                                   "alleles_of_that_site": n_alleles[phantom[0][0]]}, "C15/fix/padding-allele-fixed")
+                else:
+                    chk.violation("fixed SNVs do not reappear in the trace in the correct column with the correct allele",
+                                  {**case, "chain": c_, "step": s, "trace": [list(x) for x in got] if nb <= 12 else "omitted",
+                                   "expected": [list(x) for x in sorted(exp_rows)] if nb <= 12 else "omitted",
+                                   "first_wrong_column": next((j for j in range(nb) if sorted(x[j] for x in got) != sorted(x[j] for x in exp_rows)), None)},
+                                  "C15/fix/reinsert")
                 break
+        gt = tr.genotypes[0]
         # model correspondence of the re-insertion
         if ok and het_cols:
             pat = ["x" if f is None else str(f) for f in fixed]
@@ -296,4 +664,10 @@ def run(tier, replay=None):
             mod0 = sorted(tuple(int(x) for x in row.split()) for row in m.split("|"))
             if got0 != mod0:
                 chk.disagreement("template re-insertion impl != model reinsert", {**case, "impl": got0, "model": mod0})
+    iteration_part(chk, r, tier)
+    cli_part(chk, r, tier)
+    # ------------------------------------------------------------------ option plumbing of mchap assemble (shared observer)
+    if tier != "warm":
+        from . import plumbing
+        plumbing.run_plumbing(chk, C.rng(PROP + ":plumbing"), None, PROP, programs=("assemble",), tier=tier)
     return chk.finish()
